@@ -241,7 +241,7 @@ with tramp (fuel : nat) (p : value) (args : list value) (env : nat) (st : state)
                     doe (vs, st3) <- eval_args f aes last_env st2 ;;
                     match first with
                     | VProcU _ _ _ _ | VProcB _ => tramp f first vs env st3
-                    | _ => (err TypeMisMatch, st3)
+                    | _ => (lerr TypeMisMatch (eloc fe), st3)
                     end
                 end
             | _ => (Panic PUnmodelled, st)
